@@ -15,14 +15,24 @@ def poller_impl(fb):
     from . import poller_model
     poller_model.init_names(fb)
     out = {}
-    for b in fb.bodies(common.DAEMON):
-        if not b.impl_trait or b.impl_trait.startswith('std::') or b.defkind == 'Closure':
+    # a method the trait provides and the shipped implementor does not override is the implementor's method
+    bodies = list(fb.bodies(common.DAEMON))
+    overridden = {(b.impl_trait.split('<')[0], b.name) for b in bodies if b.impl_trait}
+    for b in bodies:
+        if b.defkind == 'Closure' or (b.impl_trait or '').startswith('std::'):
+            continue
+        if not b.impl_trait and not (b.provided_of and (b.provided_of, b.name) not in overridden):
             continue
         if b.name in poller_model.QUERY_METHODS and common.reaches_call(fb, b, lambda n: n.startswith('chrony_candm::') and 'blocking_query' in n):
             out['get_tracking'] = b
         elif b.name in poller_model.GRACE_METHODS and common.reaches_call(
                 fb, b, lambda n: n.endswith(('Instant::elapsed', 'Instant::now', 'Instant::duration_since'))):
             out['is_within_grace_period'] = b
+        elif b.name in poller_model.GRACE_METHODS and b.argc == 1 and b.tystr(b.locals[0]['ty']) == 'bool':
+            # the method the loop asks, although it consults no clock: P2 says what it computes instead
+            out.setdefault('is_within_grace_period:no-clock', b)
+    if 'is_within_grace_period' not in out and 'is_within_grace_period:no-clock' in out:
+        out['is_within_grace_period'] = out['is_within_grace_period:no-clock']
     return out
 
 
